@@ -16,6 +16,8 @@ import Pyx12Verif.Drv.C09
 import Pyx12Verif.Drv.C07
 import Pyx12Verif.Drv.Doc
 import Pyx12Verif.Drv.C19Iter
+import Pyx12Verif.Drv.DocSinks
+import Pyx12Verif.Drv.CtxDoc
 
 open Pyx12Verif
 
@@ -25,6 +27,7 @@ def handlers : List (List (List Char) → Option String) :=
 structure St where
   walk : Drv.Walk.DState := {}
   doc : Drv.Doc.DState := {}
+  sinks : Drv.DocSinks.DState := {}
 
 partial def loop (hin hout : IO.FS.Stream) (st : St) : IO Unit := do
   let line ← hin.getLine
@@ -38,7 +41,13 @@ partial def loop (hin hout : IO.FS.Stream) (st : St) : IO Unit := do
     | none =>
       match Drv.Doc.handle st.doc fs with
       | some (d, r) => hout.putStrLn r; loop hin hout { st with doc := d }
-      | none => hout.putStrLn "bad-op"; loop hin hout st
+      | none =>
+        match Drv.DocSinks.handle st.doc st.sinks fs with
+        | some (k, r) => hout.putStrLn r; loop hin hout { st with sinks := k }
+        | none =>
+          match Drv.CtxDoc.handle st.doc fs with
+          | some r => hout.putStrLn r; loop hin hout st
+          | none => hout.putStrLn "bad-op"; loop hin hout st
 
 def main : IO Unit := do
   let hin ← IO.getStdin
